@@ -33,8 +33,8 @@ READER_ALLOWED = {"LexerError", "ParserError"}
 
 # exception origins that cannot occur, one named construct each, with the reason (confirmed by reading)
 ESCAPE_EXEMPT = {
-    ("core.lexer:tokenize", "content.index('\\n', span_start)"): "a fence span always covers an opening and a closing fence line joined by newlines (R20.1 fence-span obligation), so the newline is found",
-    ("core.lexer:tokenize", "content.rindex('\\n', span_start, span_end)"): "same: the span contains the newline before the closing fence line",
+    ("core.lexer:*", "content.index('\\n', span_start)"): "a fence span always covers an opening and a closing fence line joined by newlines (R20.1 fence-span obligation), so the newline is found",
+    ("core.lexer:*", "content.rindex('\\n', span_start, span_end)"): "same: the span contains the newline before the closing fence line",
     ("core.schema_extractor:InheritanceResolver.resolve_target", "raise DepthLimitError"): "the path is '<section key>.<field name>' built by the validator from names of the packaged schema and block keys matched against it; it has 2 components plus the dots of a schema-declared name, far below MAX_DEPTH=100",
     ("mcp.eject:EjectTool.execute", "json.dumps(data"): "data is the result of _ast_to_dict, whose converters return only dict/list/str/int/float/bool/None for every node and value kind (C14 R14.1 decides the exhaustiveness); nesting is bounded by the parser caps (R20.4)",
     ("mcp.eject:EjectTool.execute", "yaml.dump(data"): "same data as the JSON format: plain JSON-typed containers of capped depth, which the YAML representer accepts",
@@ -173,50 +173,102 @@ class ScanProgress:
 
     # -- reasons for the two non-obvious updates ------------------------------------------------
     def _fence_reason(self) -> tuple[bool, str]:
-        """`pos = span_end` under `pos == fence_spans[i][0]`: spans are (start, end) with end > start"""
+        """`pos = span_end` under `pos == fence_spans[i][0]`: every recorded span (start, end, ...) has end > start.
+        Decided on the offset arithmetic of _normalize_with_fence_detection: the offset variable only grows; `start` is a copy of
+        it; `end` is the offset at the append minus a constant c (or plus a length); on every CFG path from the binding of
+        `start` to the append the offset is strictly increased at least c + 1 times (0-1 shortest path over the CFG)."""
         lx = self.fi.module
         if not lx.has_func("_normalize_with_fence_detection"):
             return False, "_normalize_with_fence_detection not found"
         nf = lx.func("_normalize_with_fence_detection")
-        appends = [n for n in walk_no_nested(nf.node) if isinstance(n, ast.Call) and isinstance(n.func, ast.Attribute) and n.func.attr == "append" and isinstance(n.func.value, ast.Name) and n.func.value.id == "fence_spans"]
+        cfg = CFG(nf.node)
+        appends = [n for n in cfg.nodes if n.kind == "stmt" and n.ast is not None and any(isinstance(c, ast.Call) and isinstance(c.func, ast.Attribute) and c.func.attr == "append" and isinstance(c.func.value, ast.Name) and c.func.value.id == "fence_spans" for c in walk_no_nested(n.ast))]
         if not appends:
             return False, "no fence_spans.append"
+
+        def single_def(name: str):
+            ds = [n for n in walk_no_nested(nf.node) if isinstance(n, ast.Assign) and len(n.targets) == 1 and isinstance(n.targets[0], ast.Name) and n.targets[0].id == name and not isinstance(n.value, (ast.Constant, ast.UnaryOp))]
+            return ds
+
         for ap in appends:
-            t = ap.args[0] if ap.args else None
+            call = next(c for c in walk_no_nested(ap.ast) if isinstance(c, ast.Call) and isinstance(c.func, ast.Attribute) and c.func.attr == "append")
+            t = call.args[0] if call.args else None
             if not (isinstance(t, ast.Tuple) and len(t.elts) >= 2 and isinstance(t.elts[0], ast.Name)):
                 return False, "appended span is not a tuple (start, end, ...)"
-            start, end = t.elts[0].id, t.elts[1]
-            # end == <offset> - 1
-            if not (isinstance(end, ast.BinOp) and isinstance(end.op, ast.Sub) and isinstance(end.left, ast.Name) and isinstance(end.right, ast.Constant) and end.right.value == 1):
-                return False, "span end is not `<offset> - 1`"
-            off = end.left.id
+            start = t.elts[0].id
+            end = t.elts[1]
+            if isinstance(end, ast.Name):
+                ds = single_def(end.id)
+                if len(ds) != 1:
+                    return False, f"span end `{end.id}` has {len(ds)} definitions"
+                # the name stands for its defining expression only if that was evaluated in the same block as the append, with
+                # the offset untouched in between (otherwise it is an older value of the offset, e.g. the span start itself)
+                blk = _block_of(nf.node, ap.ast)
+                if blk is None or ds[0] not in blk or blk.index(ds[0]) > blk.index(ap.ast) or any(isinstance(x, (ast.AugAssign, ast.Assign)) and any(isinstance(y, ast.Name) and isinstance(y.ctx, ast.Store) for y in ast.walk(x)) and "offset" in ast.unparse(x.targets[0] if isinstance(x, ast.Assign) else x.target) for x in blk[blk.index(ds[0]) + 1: blk.index(ap.ast)]):
+                    return False, f"span end `{end.id}` is not computed from the offset at the time of the append"
+                end = ds[0].value
+            # end = OFF - c | OFF + <len or non-negative const> | OFF
+            off, c = None, None
+            if isinstance(end, ast.Name):
+                off, c = end.id, 0
+            elif isinstance(end, ast.BinOp) and isinstance(end.left, ast.Name) and isinstance(end.op, ast.Sub) and isinstance(end.right, ast.Constant) and isinstance(end.right.value, int):
+                off, c = end.left.id, end.right.value
+            elif isinstance(end, ast.BinOp) and isinstance(end.left, ast.Name) and isinstance(end.op, ast.Add) and ((isinstance(end.right, ast.Call) and ast.unparse(end.right.func) == "len") or (isinstance(end.right, ast.Constant) and isinstance(end.right.value, int) and end.right.value >= 0)):
+                off, c = end.left.id, 0
+            if off is None:
+                return False, f"span end `{ast.unparse(end)}` is not the running offset plus/minus a constant or a length"
 
-            def is_growth(st: ast.stmt) -> bool:
-                # <off> += len(x) + k, k >= 1
-                return isinstance(st, ast.AugAssign) and isinstance(st.target, ast.Name) and st.target.id == off and isinstance(st.op, ast.Add) and isinstance(st.value, ast.BinOp) and isinstance(st.value.op, ast.Add) and isinstance(st.value.left, ast.Call) and ast.unparse(st.value.left.func) == "len" and isinstance(st.value.right, ast.Constant) and isinstance(st.value.right.value, int) and st.value.right.value >= 1
+            def growth(st: ast.AST) -> int | None:
+                """None: not a write of the offset; 0: grows by >= 0; 1: grows by >= 1; -1: anything else"""
+                if isinstance(st, ast.AugAssign) and isinstance(st.target, ast.Name) and st.target.id == off:
+                    v = st.value
+                    if isinstance(st.op, ast.Add):
+                        if isinstance(v, ast.BinOp) and isinstance(v.op, ast.Add) and any(isinstance(x, ast.Call) and ast.unparse(x.func) == "len" for x in (v.left, v.right)) and any(isinstance(x, ast.Constant) and isinstance(x.value, int) and x.value >= 1 for x in (v.left, v.right)):
+                            return 1
+                        if isinstance(v, ast.Constant) and isinstance(v.value, int) and v.value >= 1:
+                            return 1
+                        if isinstance(v, ast.Call) and ast.unparse(v.func) == "len":
+                            return 0
+                    return -1
+                if isinstance(st, ast.Assign) and any(isinstance(x, ast.Name) and x.id == off for x in st.targets):
+                    return 0 if (isinstance(st.value, ast.Constant) and st.value.value == 0 and not _inside_loop(st)) else -1
+                return None
 
-            # every other write of the offset only grows it
-            for n in walk_no_nested(nf.node):
-                if isinstance(n, ast.AugAssign) and isinstance(n.target, ast.Name) and n.target.id == off and not is_growth(n):
-                    return False, f"`{_stmt_text(n)}` is not a growth of the offset"
-                if isinstance(n, ast.Assign) and any(isinstance(x, ast.Name) and x.id == off for x in n.targets) and not (isinstance(n.value, ast.Constant) and n.value.value == 0):
-                    return False, f"`{_stmt_text(n)}` rebinds the offset"
-            # start is bound only as `start = <off>` (besides a constant initialisation), followed in its block by a growth
-            binds = [n for n in walk_no_nested(nf.node) if isinstance(n, ast.Assign) and any(isinstance(x, ast.Name) and x.id == start for x in n.targets) and not isinstance(n.value, (ast.Constant, ast.UnaryOp))]
+            weights: dict[int, int] = {}
+            for n in cfg.nodes:
+                if n.kind == "stmt" and n.ast is not None:
+                    g = growth(n.ast)
+                    if g == -1:
+                        return False, f"`{_stmt_text(n.ast)}` does not only grow the offset"
+                    if g is not None:
+                        weights[n.id] = g
+            binds = [n for n in cfg.nodes if n.kind == "stmt" and isinstance(n.ast, ast.Assign) and any(isinstance(x, ast.Name) and x.id == start for x in n.ast.targets) and not isinstance(n.ast.value, (ast.Constant, ast.UnaryOp))]
             if not binds:
                 return False, "span start is never bound"
             for b in binds:
-                if not (isinstance(b.value, ast.Name) and b.value.id == off):
-                    return False, f"`{_stmt_text(b)}`: span start not taken from the offset"
-                blk = _block_of(nf.node, b)
-                if blk is None or not any(is_growth(s) for s in blk[blk.index(b) + 1:]):
-                    return False, "no growth of the offset after the span start is recorded"
-            # the append is preceded in its block by a growth (the closing line), so end = off - 1 >= start + 1
-            apst = _stmt_of(nf.node, ap)
-            blk = _block_of(nf.node, apst) if apst is not None else None
-            if blk is None or not any(is_growth(s) for s in blk[: blk.index(apst)]):
-                return False, "no growth of the offset between the opening line and the append"
-        return True, "spans are (offset at the opening line, offset after the closing line - 1); two growths of >= 1 lie between, so end > start"
+                if not (isinstance(b.ast.value, ast.Name) and b.ast.value.id == off):
+                    return False, f"`{_stmt_text(b.ast)}`: span start is not a copy of the offset"
+                # 0-1 shortest path b -> ap counting strict growths
+                import heapq
+
+                dist = {b.id: 0}
+                heap = [(0, b.id)]
+                while heap:
+                    d, u = heapq.heappop(heap)
+                    if d > dist.get(u, 1 << 30):
+                        continue
+                    for v2, lab in cfg.succ[u]:
+                        if lab == "x":
+                            continue
+                        w = 1 if weights.get(v2, 0) == 1 and v2 != ap.id else 0
+                        if d + w < dist.get(v2, 1 << 30):
+                            dist[v2] = d + w
+                            heapq.heappush(heap, (d + w, v2))
+                if ap.id not in dist:
+                    continue
+                if dist[ap.id] <= c:
+                    return False, f"a path from `{_stmt_text(b.ast)}` to the append grows the offset only {dist[ap.id]} time(s) by >= 1 while the end is offset - {c}: end > start is not guaranteed"
+        return True, "spans are (copy of the running offset, offset -/+ a bound quantity) and every path between the two grows the offset strictly often enough: end > start"
 
     def _lockstep_reason(self) -> tuple[bool, str]:
         """`pos = suffix_pos`: suffix_pos - pos == len(suffix) >= 1 is maintained"""
@@ -297,6 +349,14 @@ class ScanProgress:
                     result = True  # += len(x) on a path where x is known to be non-empty
                 else:
                     return None
+            elif isinstance(n, ast.Assign) and len(n.targets) == 1 and isinstance(n.targets[0], ast.Tuple) and any(isinstance(t, ast.Name) and t.id == v for t in n.targets[0].elts) and isinstance(n.value, ast.Call) and isinstance(n.value.func, ast.Name):
+                # pos, ... = helper(..., fence_spans[i], ...): the helper returns a position at or past the end of that span
+                touched = True
+                k = [i for i, t in enumerate(n.targets[0].elts) if isinstance(t, ast.Name) and t.id == v][0]
+                if self.fence_ok and any(f.startswith(f"{v} == fence_spans[") and f.endswith("][0]") for f in facts) and self._helper_returns_past_span(n.value, k):
+                    result = True
+                else:
+                    return None
             elif isinstance(n, ast.Assign) and any(isinstance(t, ast.Name) and t.id == v for t in n.targets):
                 touched = True
                 val = ast.unparse(n.value)
@@ -313,6 +373,42 @@ class ScanProgress:
             elif isinstance(n, (ast.NamedExpr,)) and isinstance(n.target, ast.Name) and n.target.id == v:
                 return None
         return result if touched else False
+
+    def _helper_returns_past_span(self, call: ast.Call, k: int) -> bool:
+        """call = helper(..., fence_spans[i], ...); element k of every returned tuple is the span's end (index 1 of the span
+        parameter, unpacked), only ever increased afterwards"""
+        lx = self.fi.module
+        if not lx.has_func(call.func.id):  # type: ignore[union-attr]
+            return False
+        h = lx.func(call.func.id).node  # type: ignore[union-attr]
+        params = [a.arg for a in h.args.args]  # type: ignore[attr-defined]
+        span_params = [params[i] for i, a in enumerate(call.args) if i < len(params) and ast.unparse(a).startswith("fence_spans[")]
+        if len(span_params) != 1:
+            return False
+        sp = span_params[0]
+        ends = set()
+        for n in walk_no_nested(h):
+            if isinstance(n, ast.Assign) and len(n.targets) == 1 and isinstance(n.targets[0], ast.Tuple) and isinstance(n.value, ast.Name) and n.value.id == sp and len(n.targets[0].elts) >= 2 and isinstance(n.targets[0].elts[1], ast.Name):
+                ends.add(n.targets[0].elts[1].id)
+        rets = [r for r in walk_no_nested(h) if isinstance(r, ast.Return)]
+        if not rets or not ends:
+            return False
+        for r in rets:
+            if not (isinstance(r.value, ast.Tuple) and k < len(r.value.elts) and isinstance(r.value.elts[k], ast.Name)):
+                return False
+            pv = r.value.elts[k].id
+            if pv in ends:
+                continue
+            writes = [n for n in walk_no_nested(h) if (isinstance(n, ast.Assign) and any(isinstance(t, ast.Name) and t.id == pv for t in n.targets)) or (isinstance(n, ast.AugAssign) and isinstance(n.target, ast.Name) and n.target.id == pv)]
+            if not writes:
+                return False
+            for w in writes:
+                if isinstance(w, ast.Assign) and isinstance(w.value, ast.Name) and w.value.id in ends:
+                    continue
+                if isinstance(w, ast.AugAssign) and isinstance(w.op, ast.Add) and isinstance(w.value, ast.Constant) and isinstance(w.value.value, int) and w.value.value >= 0:
+                    continue
+                return False
+        return True
 
     def _match_from_pos(self) -> bool:
         if getattr(self, "_mfp", None) is None:
@@ -368,6 +464,15 @@ class ScanProgress:
         ex.explore(starts, visit)
         self.states = len(ex.parent)
         return [[head] + ex.path_to(st) for st in results]
+
+
+def _inside_loop(st: ast.AST) -> bool:
+    cur = getattr(st, "_parent", None)
+    while cur is not None and not isinstance(cur, (ast.FunctionDef, ast.AsyncFunctionDef)):
+        if isinstance(cur, (ast.For, ast.While)):
+            return True
+        cur = getattr(cur, "_parent", None)
+    return False
 
 
 def _block_of(fn: ast.AST, st: ast.AST) -> list[ast.stmt] | None:
@@ -475,7 +580,7 @@ def _fresh_name_loop(loop: ast.While) -> str | None:
 
 
 def check_other_loops(run: Run, pmodel: ParserModel) -> None:
-    run.rule("R20.1b", "every while loop outside tokenize's main loop and the Parser's token loops has a recognised termination argument (monotone bounded counter, shrinking string, streaming read, fresh-name search); no for loop appends to the collection it iterates", 12)
+    run.rule("R20.1b", "every while loop outside tokenize's main loop and the Parser's token loops has a recognised termination argument (monotone bounded counter, shrinking string, streaming read, fresh-name search); no for loop appends to the collection it iterates", 8)
     parser_cls = pmodel.cls
     for m in run.project.modules.values():
         for fi in m.functions.values():
@@ -782,7 +887,7 @@ def check_escape(run: Run, res: Resolver) -> None:
 
     def exempt(o: Origin) -> str | None:
         for (fq, frag), why in ESCAPE_EXEMPT.items():
-            if _short(o.fqn) == fq and frag in o.construct:
+            if (_short(o.fqn) == fq or (fq.endswith(":*") and _short(o.fqn).startswith(fq[:-1]))) and frag in o.construct:
                 used_exempt.add((fq, frag))
                 return why
         return None
